@@ -18,7 +18,7 @@ Import ListNotations.
 
 Inductive cop := CW (b : batch) | CD (m : N) | CN.       (* write, drop measurement, anything without effect on the contents *)
 
-Record ctie := mkct { ct_eps : list (list nat); ct_nj : nat; ct_gone : list nat }.
+Record ctie := mkct { ct_eps : list (list nat); ct_nj : nat; ct_gone : list nat; ct_missing : list nat }.
 Record cimage := mkci { ci_acked : nat; ci_inflight : option nat; ci_post : list cop; ci_chain : list (list (list nat));
                         ci_tie : option ctie; ci_obs : list (key * Z) }.
 (* a raw log file of a crash image: its bytes, the number of records completely appended, the bytes of a torn append at its end *)
@@ -59,7 +59,10 @@ Definition idx_of (b : batch) : nat := match b with (k, _) :: _ => N.to_nat (fst
 Definition live_idx (n : nat) (t : ctie) : list (list nat) :=
   let eps := ct_eps t in
   let st := mkw (map (map tagb) (removelast eps)) (map tagb (last eps [])) 0 (ct_nj t) in
-  map (map (fun eb => idx_of (snd eb))) (live_current n st (ct_gone t)).
+  (* the ops in ct_missing hold a WAL slot (they are in ct_eps at their slot position) but their record is not on disk
+     yet: a writer held at its log append *)
+  map (fun p => filter (fun i => negb (existsb (Nat.eqb i) (ct_missing t))) (map (fun eb => idx_of (snd eb)) p))
+      (live_current n st (ct_gone t)).
 Definition natlist_eqb (a b : list nat) : bool := if list_eq_dec Nat.eq_dec a b then true else false.
 Definition parts_eqb (a b : list (list nat)) : bool := if list_eq_dec (list_eq_dec Nat.eq_dec) a b then true else false.
 Definition tie_ok (n : nat) (im : cimage) : bool :=
